@@ -22,6 +22,11 @@ NOTES = ("Technique family: machine-checked proof in Lean 4. Every claimed prope
          "hand-written model in lean/Rml/Model, tied to /repo by the correspondence run of tools/check.py. See DESIGN.md.")
 
 PROPS = {
+    "C13": dict(
+        lean=["Rml.Props.C13"], families=["msg"],
+        level_text="Proved for all field values on the model of rtmp/src/messages/**: C13_roundtrip (every well-formed message of every variant — all u32 values, all 9 user-control events, all 3 limit types, arbitrary AMF0 argument lists via C04, arbitrary audio/video bytes — converts to a payload that converts back to an equal message), C13_layout (type ids and body layouts written out from RTMP 1.0 §5.4/§7.1 in the theorem statement), C13_alias (15≡18, 17≡20 with optional leading zero), C13_unknown (all unassigned ids pass through untouched in both directions), C13_chunk_size_range (rejected ⇔ > 2^31-1, both directions).",
+        level_note="Trusted: Lean kernel; well-formedness predicate C13.WF (u32 ranges, exactly the fields of the event type, Rust type guarantees for AMF0 parts); model tied to code by the `msg` family (all 256 type ids × 11 bodies, all event and limit codes, boundary-biased random messages) incl. an independent layout table in the harness. Ill-formed user-control messages trip debug_assert! in the library (API misuse): mirrored as explicit outcome `panic`, excluded by WF. Depends on fix F5.",
+    ),
     "C01": dict(
         lean=["Rml.Props.C01", "Rml.Props.C15"], families=["chunk"],
         level_text="PARTIAL proof. Proved for all inputs on the models of serializer.rs / deserializer.rs: the serializer accepts exactly payloads ≤ 16,777,215 bytes (C01_accepts), every accepted message yields a non-empty packet incl. empty payloads (C01_nonempty), and what the deserializer returns is independent of how the bytes are split into calls, for every byte string (C01_any_partition = Thm P). NOT yet a theorem: the round-trip equation for every history (Thm B ∘ Thm A); it is covered by the byte-exact correspondence run (model ≡ real serializer and real deserializer on ~13,000 histories incl. all length-≤2/3 sequences over a 38-symbol alphabet) and the direct round-trip oracle on the real code.",
